@@ -376,7 +376,11 @@ func (in *instr) rewrite() (bool, error) {
 			if in.isChan(n.X) {
 				c.Replace(in.rewriteRangeChan(n))
 			} else if in.isMap(n.X) && in.bodyNeedsOrder(n.Body) {
-				if r := in.rewriteRangeMap(n); r != nil {
+				if r := in.rewriteRangeMap(n, "RangeKeys"); r != nil {
+					c.Replace(r)
+				}
+			} else if in.isMap(n.X) && in.stmtPoints {
+				if r := in.rewriteRangeMap(n, "SortedKeys"); r != nil {
 					c.Replace(r)
 				}
 			}
@@ -652,14 +656,14 @@ func (in *instr) rewriteRangeChan(n *ast.RangeStmt) ast.Stmt {
 	}
 }
 
-func (in *instr) rewriteRangeMap(n *ast.RangeStmt) ast.Stmt {
+func (in *instr) rewriteRangeMap(n *ast.RangeStmt, keysFn string) ast.Stmt {
 	if n.Tok == token.ASSIGN {
 		in.fail(n, "range over map with '=' whose body reaches the scheduler is not supported")
 		return nil
 	}
 	// the map expression must be cheap and pure to evaluate twice
 	switch ast.Unparen(n.X).(type) {
-	case *ast.Ident, *ast.SelectorExpr:
+	case *ast.Ident, *ast.SelectorExpr, *ast.IndexExpr:
 	default:
 		in.fail(n, "range over a computed map whose body reaches the scheduler is not supported")
 		return nil
@@ -686,7 +690,7 @@ func (in *instr) rewriteRangeMap(n *ast.RangeStmt) ast.Stmt {
 		Key:   ast.NewIdent("_"),
 		Value: key,
 		Tok:   token.DEFINE,
-		X:     in.call("RangeKeys", n.X),
+		X:     in.call(keysFn, n.X),
 		Body:  &ast.BlockStmt{List: append(pre, n.Body.List...)},
 	}
 }
@@ -713,11 +717,21 @@ func (in *instr) addStmtPoints() {
 		if !ok || fd.Body == nil {
 			continue
 		}
+		clauseBlocks := map[*ast.BlockStmt]bool{}
 		ast.Inspect(fd.Body, func(n ast.Node) bool {
 			switch b := n.(type) {
 			case *ast.FuncLit:
 				return false // comparators and callbacks run atomically with their caller's statement
+			case *ast.SwitchStmt:
+				clauseBlocks[b.Body] = true
+			case *ast.TypeSwitchStmt:
+				clauseBlocks[b.Body] = true
+			case *ast.SelectStmt:
+				clauseBlocks[b.Body] = true
 			case *ast.BlockStmt:
+				if clauseBlocks[b] {
+					return true // its elements are clauses, not statements
+				}
 				b.List = addTo(b.List)
 			case *ast.CaseClause:
 				b.Body = addTo(b.Body)
